@@ -21,6 +21,9 @@ that is correct but not complex-analytic can never raise an alarm).
 import itertools
 import numpy as np
 
+# module-level import: done once in the runner before the workers are forked
+import cardillo.rods._material_models  # noqa: F401  (resolved through PYTHONPATH = $VERIF_REPO)
+
 from vp.core import fd
 from vp.core.alphabet import generic_unit, generic_vec, weyl
 
